@@ -27,16 +27,19 @@ Proof.
   intros reach nw a Hn HS HB HC. unfold time_ok in *.
   unfold tr_checkActive, check_active.
   destruct thresholds as (-> & -> & -> & -> & ->).
+  (* the thresholds as numerals (whatever their current values are), for lia *)
+  let v := eval vm_compute in kFainN in change kFainN with v.
+  let v := eval vm_compute in kFailInterval in change kFailInterval with v.
+  let v := eval vm_compute in kCheckTime in change kCheckTime with v.
+  let v := eval vm_compute in kOverN in change kOverN with v.
+  let v := eval vm_compute in kTry in change kTry with v.
   destruct a as [e st f lf sn ts tb tc gf]. cbn [ast fc lfc sc tS tB tC] in *.
   set (rh := ratio_hit (mkA e st f lf sn ts tb tc gf)).
   replace (ratio_hit (mkA e true f lf sn ts tb tc gf)) with rh by (destruct st; reflexivity).
-  destruct st; cbn [bindc]; rewrite ?wrapS64_id by lia.
-  - (* the model's cases, then the conditions of the translated code: they agree or the case is contradictory *)
-    destruct ((kFailInterval <=? nw - ts) && (kFainN <=? lf))%bool eqn:M1;
-      [|destruct (kCheckTime <=? nw - tc) eqn:M2; [destruct ((kOverN <=? f) && rh)%bool eqn:M3|]];
-      fold_bool; split_ifs; cbn [bindc]; rewrite ?wrapS64_id by lia; fold_bool; split_ifs; cbn [bindc]; try reflexivity; exfalso; lia.
-  - destruct (kTry <=? nw - tb) eqn:M1; destruct reach;
-      fold_bool; split_ifs; cbn [bindc]; try reflexivity; exfalso; lia.
+  (* every condition of the model and of the translated code: they agree or the case is contradictory *)
+  destruct st; destruct reach;
+    repeat (rewrite ?wrapS64_id by lia; fold_bool; split_ifs; cbn [bindc]); try reflexivity;
+    exfalso; rewrite ?wrapS64_id in * by lia; lia.
 Qed.
 
 (* checkActive touches status and lastBlockTime only (the model's record keeps every other field) *)
